@@ -747,6 +747,33 @@ pub fn directed() -> Vec<Request> {
             }
         }
     }
+    // one helper of every kind x every dictionary type as the type of the field that carries it
+    for h in [
+        "#[ord(ignore)]", "#[partial_ord(reverse)]", "#[ord(key = $.len())]", "#[eq(key = $)]", "#[partial_eq(by = f)]",
+        "#[hash(by = |a, h| a.hash(h))]", "#[ord(by = f, bound(..))]", "#[eq(bound(T))]", "#[hash(ignore)]",
+        "#[debug(ignore)]", "#[debug(transparent)]", "#[debug(bound(T))]", "#[default(_)]", "#[default(X::new(), bound())]",
+        "#[derive_ex(Clone(bound(T)), Default(bound()))]",
+    ] {
+        for ty in crate::gen::TYPES {
+            let list = "Ord, PartialOrd, Eq, PartialEq, Hash, Debug, Default, Clone";
+            out.push(Request { mode: Mode::Attr, attr: list.into(), item: format!("struct X<'a, T, U, const N: usize>({h} {ty}, U);") });
+            out.push(Request { mode: Mode::Derive, attr: String::new(), item: format!("#[derive_ex({list})] enum X<'a, T, U, const N: usize> {{ A {{ {h} a: {ty} }}, #[default] B(U) }}") });
+        }
+    }
+    // every ordered pair of traits, and every list with one trait left out, on a few shapes
+    // (what the expander does for one trait may depend on which others are derived with it)
+    for shape in ["struct X<T>(T, u8);", "enum X<T> { A(T), #[default] B { t: Vec<T> }, C }", "struct X;", "enum X {}", "struct X { #[ord(key = $.len())] a: String }"] {
+        for a in TRAITS {
+            for b in TRAITS {
+                if a != b {
+                    out.push(Request { mode: Mode::Attr, attr: format!("{a}, {b}"), item: shape.to_string() });
+                }
+            }
+            let rest: Vec<&str> = TRAITS.iter().copied().filter(|t| t != a).collect();
+            out.push(Request { mode: Mode::Attr, attr: rest.join(", "), item: shape.to_string() });
+            out.push(Request { mode: Mode::Derive, attr: String::new(), item: format!("#[derive_ex({})] {shape}", rest.join(", ")) });
+        }
+    }
     // normalise to the printed token form and drop what is not a valid request
     let mut res = Vec::new();
     let mut seen = std::collections::BTreeSet::new();
